@@ -95,7 +95,9 @@ def check(res, U, p, P, W, rep):
                 return
         except Exception:  # noqa: BLE001
             pass
-    for u in interior_points(U, p):
+    # also at the interior knots where C is differentiable (multiplicity <= p-1: C is C^1 there, both pieces agree)
+    smooth_knots = [k for k in rb.knots_of(U)[1:-1] if rb.mult(U, k) <= p - 1]
+    for u in interior_points(U, p) + smooth_knots:
         res.transition()
         ov = lib.outcome(D, lib.conv(u, rep))
         ex = E.value(u)
